@@ -543,12 +543,10 @@ fn t2_encw(out: &mut Out, c: Codec, room: usize, b: &[u8]) {
     });
     let p = c.pfx();
     match r {
-        Err(e) => { if c != B32 { out.case(&case, "Panic", true, &format!("encw{}", c.tag())); } chk(out, false, &format!("{}_display_write_panics", p), &case, &e); }
+        Err(e) => { out.case(&case, "Panic", true, &format!("encw{}", c.tag())); chk(out, false, &format!("{}_display_write_panics", p), &case, &e); }
         Ok((ok, written)) => {
-            if c != B32 {
-                let obs = format!("{} {}", if ok { "Ok" } else { "Err" }, cps(&written.chars().collect::<Vec<_>>()));
-                out.case(&case, &obs, !b.is_empty(), &format!("encw{}", c.tag()));
-            } else { out.oracle_case(&case, !b.is_empty(), "encw32_oracle_only"); }
+            let obs = format!("{} {}", if ok { "Ok" } else { "Err" }, cps(&written.chars().collect::<Vec<_>>()));
+            out.case(&case, &obs, !b.is_empty(), &format!("encw{}", c.tag()));
             let full = ref_encode(c, b);
             let unit = if c == B16 { 2 } else { 1 };
             let fit = if full.len() <= room { full.len() } else { room / unit * unit };
@@ -639,8 +637,8 @@ fn t2_scan_methods(out: &mut Out, tokens: &[Vec<char>]) {
     {
         let case = format!("sname {}", one);
         out.begin(&case);
-        out.oracle_case(&case, true, "sname_oracle_only");
         let r = catch_mut(|| scanner!().scan_name().map(|n| n.as_slice().to_vec()).map_err(|e| e.to_string()));
+        out.case(&case, &res_obs(&r), true, "sname");
         let t = text_of(&first);
         let f = catch(move || domain::base::name::Name::<Vec<u8>>::from_str(&t).map(|n| n.as_slice().to_vec()).map_err(|e| e.to_string()));
         match (&r, &f) {
